@@ -185,7 +185,28 @@ def _memo_writes(ctx, results):
            key="C16.4:memo-writes", nontrivial=False)
 
 
+def _fresh_at_every_call(results, f, p: str) -> bool:
+    """every call of the helper passes, for parameter p, a value that
+    shares no storage with a parameter or global of the calling function"""
+    from ..effects import roots
+    sites = 0
+    for q2, res in results.items():
+        if res.func is f:
+            continue
+        for e in res.of_kind("call"):
+            if e.data.get("target") is not f:
+                continue
+            b = (e.data.get("bound") or {}).get(p)
+            if b is None or roots(b) or any(
+                    x.op in ("param", "global", "named", "loopvar", "loopout")
+                    for x in b.walk()):
+                return False      # (conservative: no input mentioned at all)
+            sites += 1
+    return sites > 0
+
+
 def check(ctx):
+    from ..known_functions import KNOWN_FUNCTIONS
     prog = ctx.prog
     results = sweep(prog, "plain")
     S = Summaries(prog, results)
@@ -214,6 +235,17 @@ def check(ctx):
                            f"{bad[0].kind} at {bad[0].event.where}",
                            key=f"C16.1:{q}:self",
                            effects=[repr(e) for e in bad[:3]])
+                continue
+            if f.name.startswith("_") and not f.name.startswith("__") \
+                    and q not in KNOWN_FUNCTIONS and effs and \
+                    _fresh_at_every_call(results, f, p):
+                # a private helper added later that fills an object its
+                # callers have just created (no storage shared with anything
+                # the callers were given): not an input of the operation
+                ctx.ob("C16.1", f, True,
+                       f"{q}({p}): private helper added after the pinned "
+                       f"tree, `{p}` is a fresh object at every call site",
+                       key=f"C16.1:{q}:{p}:via-callers", nontrivial=False)
                 continue
             if p in ALLOWED or (q, p) in ALLOWED_FN:
                 ctx.ob("C16.1", f, True,
